@@ -16,12 +16,14 @@ func init() {
 			if tier == "thorough" {
 				return []registry.Job{
 					{Name: "eth-FX+usdt", Spec: &bridge.Spec{Prop: "C04", Chains: []string{"eth"}, Tokens: []string{"FX", "usdt"}, Ledger: true, Calls: true, Inbound: true, MaxSend: 3}, Depth: 6, ShardDepth: 2},
+					{Name: "batch-life-cycle-deep", Spec: &bridge.Spec{Prop: "C04", Chains: []string{"eth"}, Tokens: []string{"usdt", "tok"}, Ledger: true, MaxSend: 4, Focus: "batches"}, Depth: 9, ShardDepth: 2},
 					{Name: "eth+bsc-usdt+tok-evm", Spec: &bridge.Spec{Prop: "C04", Chains: []string{"eth", "bsc"}, Tokens: []string{"usdt", "tok"}, Ledger: true, Calls: true, EVM: true, Inbound: true, MaxSend: 2}, Depth: 6, ShardDepth: 2},
 				}
 			}
 			return []registry.Job{
 				{Name: "eth-FX+usdt", Spec: &bridge.Spec{Prop: "C04", Chains: []string{"eth"}, Tokens: []string{"FX", "usdt"}, Ledger: true, Calls: true, Inbound: true, MaxSend: 2}, Depth: 4, ShardDepth: 2},
 				{Name: "eth-usdt+tok-evm", Spec: &bridge.Spec{Prop: "C04", Chains: []string{"eth"}, Tokens: []string{"usdt", "tok"}, Ledger: true, EVM: true, Calls: true, MaxSend: 2}, Depth: 4, ShardDepth: 2},
+				{Name: "batch-life-cycle-deep", Spec: &bridge.Spec{Prop: "C04", Chains: []string{"eth"}, Tokens: []string{"usdt", "tok"}, Ledger: true, MaxSend: 3, Focus: "batches"}, Depth: 7, ShardDepth: 2},
 			}
 		},
 	})
